@@ -58,21 +58,28 @@ class AsyncEngine(BaseEngine):
         # so we need to use a sentinel object instead of `None` because the first result may
         # be also `None`, and on this case the `first_result` may be overridden by another result.
         first_result = self._sentinel
-        try:
-            # Execute the triggers in the queue in FIFO order until the queue is empty
-            while self._external_queue:
-                trigger_data = self._external_queue.popleft()
-                try:
-                    result = await self._trigger(trigger_data)
-                    if first_result is self._sentinel:
-                        first_result = result
-                except Exception:
-                    # Whe clear the queue as we don't have an expected behavior
-                    # and cannot keep processing
-                    self._external_queue.clear()
-                    raise
-        finally:
-            self._processing.release()
+        while True:
+            try:
+                # Execute the triggers in the queue in FIFO order until the queue is empty
+                while self._external_queue:
+                    trigger_data = self._external_queue.popleft()
+                    try:
+                        result = await self._trigger(trigger_data)
+                        if first_result is self._sentinel:
+                            first_result = result
+                    except Exception:
+                        # Whe clear the queue as we don't have an expected behavior
+                        # and cannot keep processing
+                        self._external_queue.clear()
+                        raise
+            finally:
+                self._processing.release()
+
+            # Another thread may have put an event after our last check of the queue and lost
+            # the race for the lock before we released it: nobody else will process that event,
+            # so we look at the queue again.
+            if not self._external_queue or not self._processing.acquire(blocking=False):
+                break
         return first_result if first_result is not self._sentinel else None
 
     async def _trigger(self, trigger_data: TriggerData):
